@@ -11,7 +11,7 @@ import (
 	"verifharness/internal/val"
 )
 
-var c05Floor = []string{"keys.1", "keys.2", "keys.3", "dir.asc", "dir.desc", "dir.mixed", "key.null", "key.computed-null", "key.alias", "key.alias.nonword", "key.str", "key.num", "ties", "limit.huge",
+var c05Floor = []string{"keys.1", "keys.2", "keys.3", "dir.asc", "dir.desc", "dir.mixed", "key.null", "key.computed-null", "key.alias", "key.alias.nonword", "key.alias.shadow", "key.str", "key.num", "ties", "limit.huge",
 	"limit.bare", "limit.beyond-int64", "limit.offset", "limit.comma", "limit.zero", "offset.beyond", "window.straddle", "window.inside", "window.noorder", "where",
 	"shape.distinct", "shape.agg-all", "shape.group", "shape.union", "shape.bigint", "shape.union-order", "shape.qualified", "shape.shrunk-offset"}
 
@@ -90,12 +90,19 @@ func c05Order(c *fw.Case) {
 				feats = append(feats, "key.computed-null", "key.null", "key.alias", "key.num")
 				continue
 			}
-			if force == "key.alias" && i == 0 || c.Chance(0.3) {
+			if (force == "key.alias" || force == "key.alias.shadow") && i == 0 || c.Chance(0.3) {
 				out = "k" + fmt.Sprint(i)
 				if c.Chance(0.4) {
 					// an output column is named by its alias as it is, whatever characters it holds
 					out = fmt.Sprintf(gen.Pick(c.R, []string{"k %d", "k-%d", "k.%d", "é%d", "count(%d)"}), i)
 					feats = append(feats, "key.alias.nonword")
+				}
+				if nk < len(cands) && i == 0 && (force == "key.alias.shadow" || c.Chance(0.15)) {
+					// the alias is the source name of another selected column,
+					// itself shown under another name: the key names the output column
+					out = cands[nk]
+					items = append(items, out+" AS w"+fmt.Sprint(i))
+					feats = append(feats, "key.alias.shadow")
 				}
 				items = append(items, col+" AS "+c05Quote(out))
 				feats = append(feats, "key.alias")
